@@ -75,6 +75,8 @@ def build(ck):
         _trace_then_eager(ck)
     if want("rollout"):
         _vmap_rollout(ck)
+    if want("isolation"):
+        _member_isolation(ck)
     if want("static"):
         _static_jit(ck, classes)
 
@@ -223,7 +225,17 @@ def _concrete_cases():
         ("2D/GeneralLinearStepper/coefficients", lambda p: G.GeneralLinearStepper(2, 1.0, 8, 0.01, linear_coefficients=(p[0], p[1], p[2] * 0.1)), 3),
         ("2D/SwiftHohenberg", lambda p: S.reaction.SwiftHohenberg(2, 10.0, 8, 0.01, reactivity=p[0], critical_number=p[1]), 2),
         ("3D/Diffusion/scalar", lambda p: S.Diffusion(3, 1.0, 4, 0.01, diffusivity=p[0] * 0.1), 1),
+        # rarely swept constructor arguments (fixed sweep values, see _sweep_values)
+        ("Burgers/dealiasing_fraction", lambda p: S.Burgers(1, 1.0, 16, 0.01, dealiasing_fraction=p[0]), 1),
+        ("KuramotoSivashinsky/dealiasing_fraction", lambda p: S.KuramotoSivashinsky(1, 10.0, 16, 0.01, dealiasing_fraction=p[0]), 1),
+        ("Burgers/domain_extent+dt", lambda p: S.Burgers(1, 1.0 + p[0], 16, 0.01 * p[1]), 2),
     ]
+
+
+def _sweep_values(nm, npar, rng):
+    if "dealiasing_fraction" in nm:
+        return jnp.asarray([[1.0], [0.75]])
+    return jnp.asarray(rng.uniform(0.2, 0.9, size=(2, npar)))
 
 
 def _concrete_state(nm, make, rng):
@@ -242,7 +254,7 @@ def _tte_main():
 
     rng = np.random.default_rng(0)
     for nm, make, npar in _concrete_cases():
-        P = jnp.asarray(rng.uniform(0.2, 0.9, size=(2, npar)))
+        P = _sweep_values(nm, npar, rng)
         try:
             u = _concrete_state(nm, make, rng)
             first = eqx.filter_jit(eqx.filter_vmap(lambda p: make(p)(u)))(P)
@@ -289,7 +301,7 @@ def _params_concrete(ck):
     rng = np.random.default_rng(0)
     cases = _concrete_cases()
     for nm, make, npar in cases:
-        P = jnp.asarray(rng.uniform(0.2, 0.9, size=(2, npar)))
+        P = _sweep_values(nm, npar, rng)
         try:
             u = _concrete_state(nm, make, rng)
             eager = jnp.stack([make([float(x) for x in P[i]])(u) for i in range(2)])
@@ -308,6 +320,30 @@ def _param_fail_replay(make, pshape, shape, msg):
         return {"reproduced": False, "detail": "tracing failed but the concrete call works: " + msg}
     except Exception as ex_:  # noqa
         return {"reproduced": True, "detail": f"eqx.filter_vmap over the constructor parameter raises {type(ex_).__name__}: {str(ex_)[:220]}"}
+
+
+def _member_isolation(ck):
+    """concrete (non-finite values do not exist in the real-arithmetic encoding): a batch member that is NaN / inf must not
+    change any other member, for vmap(step), vmap(rollout), rollout(vmap) and repeat(vmap)"""
+    fam = "each batch member depends only on itself, also next to a non-finite member (concrete)"
+    rng = np.random.default_rng(1)
+    for nm, st in (("Diffusion", S.Diffusion(1, 1.0, N, 0.1)), ("Burgers/order2", S.Burgers(1, 1.0, N, 0.01, order=2))):
+        u = jnp.asarray(rng.normal(size=(1, N))) * 0.3
+        for bad in (jnp.nan, jnp.inf):
+            U = jnp.stack([u, jnp.full((1, N), bad), 2.0 * u])
+            ref0, ref2 = ex.rollout(st, 3)(u), ex.rollout(st, 3)(2.0 * u)
+            forms = {"vmap(step)": lambda: (jax.vmap(st)(U)[0], st(u)), "vmap(rollout)": lambda: (jax.vmap(ex.rollout(st, 3))(U)[0], ref0),
+                     "rollout(vmap)": lambda: (ex.rollout(jax.vmap(st), 3)(U)[:, 0], ref0), "rollout(vmap)/last member": lambda: (ex.rollout(jax.vmap(st), 3)(U)[:, 2], ref2),
+                     "repeat(vmap)": lambda: (ex.repeat(jax.vmap(st), 3)(U)[0], ref0[-1])}
+            for form, f in forms.items():
+                try:
+                    got, want_ = f()
+                    e = float(jnp.max(jnp.abs(got - want_)))
+                    ok, detail = bool(e < 1e-12), f"max deviation {e!r}"
+                except Exception as ex_:  # noqa
+                    ok, detail = False, f"raises {type(ex_).__name__}"
+                ck.add(f"isolation/{nm}/{form}/{'nan' if bad != bad else 'inf'}", ok, [], family=fam,
+                       replay=lambda m, nm=nm, form=form, detail=detail: {"reproduced": True, "detail": f"{nm}, {form}: a finite member next to a non-finite member differs from its own single-state result: {detail}"})
 
 
 def _vmap_rollout(ck):
